@@ -2,3 +2,4 @@ pub mod caps;
 pub mod codec;
 pub mod cpio;
 pub mod rpmvercmp;
+pub mod strict;
